@@ -58,18 +58,19 @@ def digest(res):
 
 
 class Watchdog:
-    def __init__(self, seconds):
-        self.seconds = seconds
+    """A hang cannot be interrupted reliably from inside (the stuck call may sit in pool clean-up), so a
+    timer thread reports the violation and ends the process."""
+
+    def __init__(self, seconds, on_hang):
+        import threading
+        self.timer = threading.Timer(seconds, on_hang)
+        self.timer.daemon = True
 
     def __enter__(self):
-        def handler(signum, frame):
-            raise TimeoutError("watchdog: call did not return")
-        self.old = signal.signal(signal.SIGALRM, handler)
-        signal.alarm(self.seconds)
+        self.timer.start()
 
     def __exit__(self, *a):
-        signal.alarm(0)
-        signal.signal(signal.SIGALRM, self.old)
+        self.timer.cancel()
         return False
 
 
@@ -203,7 +204,27 @@ def run(ctx):
         kids = []
         try:
             import contextlib
-            with contextlib.ExitStack() as st, Watchdog(90):
+            def on_hang(_plan=plan):
+                ctx.violation("impl-violation", "call did not return within 90 s after an injected failure (hang)",
+                              {"cfg": cfg, "plan": {k: v for k, v in _plan.items() if not k.startswith("_")}}, {"site": "hang"})
+                ctx.case((_plan["kind"], _plan.get("mp"), "hang"), nontrivial=True)
+                ctx.extra["aborted_after_hang"] = True
+                sys.stdout = sys.__stdout__        # the stuck call runs under a stdout redirection
+                try:
+                    common.finish(ctx)
+                    sys.stdout.flush()
+                except BaseException:
+                    import traceback
+                    traceback.print_exc()
+                    print(f"VIOLATION property={ctx.prop} replay=replays/unwritten no-failing-input-found", flush=True)
+                finally:
+                    for c in multiprocessing.active_children():
+                        try:
+                            c.kill()
+                        except Exception:
+                            pass
+                    os._exit(1)
+            with contextlib.ExitStack() as st, Watchdog(90, on_hang):
                 for pch in patches:
                     st.enter_context(pch)
                 try:
@@ -234,17 +255,9 @@ def run(ctx):
                         expect_exc = ("TypeError", "ticc_labels")
                     else:
                         res = call(4 if mpflag else 1)
-                except TimeoutError:
-                    raise
                 except Exception as e:
                     err = e
             kids = multiprocessing.active_children()
-        except TimeoutError:
-            gc.enable()
-            ctx.violation("impl-violation", "call did not return within 90 s after an injected failure (hang)",
-                          {"cfg": cfg, "plan": plan}, {"site": "hang"})
-            reap_abandoned_pools()
-            continue
         finally:
             gc.enable()
             os.environ.pop("CUPCAKE_ENABLE_MULTIPROCESSING", None)
